@@ -177,6 +177,29 @@ def alias_renamed(dd, known, ksigs):
             used_n[n] = m
     for n, m in used_n.items():
         ren[n] = m
+    # third stage: role by distinctive callee — an item that exactly one function of the pinned tree called, and that function is
+    # gone, while exactly one function calls it now and that function is new: the new function took over the old one's job
+    callers_then = defaultdict(set)
+    for m_, fp_ in kfp.items():
+        for c in fp_:
+            if c.startswith('c:'):
+                callers_then[c].add(m_)
+    callers_now = defaultdict(set)
+    for n_, b_ in cur.items():
+        for c in fingerprint(b_):
+            if c.startswith('c:'):
+                callers_now[c].add(n_)
+    votes = defaultdict(set)
+    for c, ms in callers_then.items():
+        if len(ms) == 1 and len(callers_now.get(c, ())) == 1:
+            m_, n_ = list(ms)[0], list(callers_now[c])[0]
+            if m_ in missing and m_ not in ren.values() and n_ in new and n_ not in ren:
+                votes[m_].add(n_)
+    taken = set()
+    for m_, ns in sorted(votes.items()):
+        if len(ns) == 1 and list(ns)[0] not in taken:
+            ren[list(ns)[0]] = m_
+            taken.add(list(ns)[0])
     if not ren:
         return
     olds = sorted(ren, key=len, reverse=True)
